@@ -132,7 +132,9 @@ def handover_guard(eng, res, rule="R-HANDOVER-GUARD"):
 def reserve_pair(eng, res, rule="R-RESERVE-PAIR"):
     gen = eng.prog.func("stochastic.Stochastic.generate")
     fin = None
-    for f in with_nested(gen):
+    from ..util import with_helpers
+
+    for f in with_helpers(eng, gen):
         dels = [n for n in own_nodes(f.node) if isinstance(n, ast.Delete)]
         if dels and calls(f, "attach_other"):
             fin = f
@@ -435,5 +437,9 @@ def check(eng, res):
 
     res.doc("R-FRESH-RESULT", "A-FRESH: what a loop hands on (the finalised molecule) is assigned in the iteration that leaves the loop")
     fresh_results(eng, res, {"stochastic"})
+    from ..memo import memo_rules
+
+    # the mirror swaps an object's terminals after construction: nothing the constructor computed from them may be kept
+    memo_rules(eng, res, only_classes=["BigSMILESbase"])
     res.assumptions += ["attach_other returns its receiver (R-ONE-BOND, C05)", "start guards' meaning is decided in C15 (roles sto-missing-prefix, sto-prefix-single, sto-prefix-terminal, sto-start-group-single)"]
     res.not_decided += ["termination (data-dependent loops)", "that every descriptor is consumed", "leaves-only end groups", "closability of descriptor types"]
